@@ -3,6 +3,7 @@ import Upf.Proofs.Seid
 import Upf.Gen.Leaf
 import Upf.Model.LockFacts
 import Upf.Proofs.TeidWorld
+import Upf.Proofs.History
 /-!
 # C07 — UP-chosen identifiers are unique among live users
 
